@@ -263,6 +263,8 @@ func busRun(c *busCase) {
 			o.Obs = w.read(o.A)
 		case "write":
 			o.Obs = w.write(o.A, byte(o.V))
+		case "read24":
+			o.Obs = int(w.read24(o.A))
 		case "dump":
 			data := make([]byte, o.Len)
 			for j := range data {
@@ -343,6 +345,15 @@ func busFeatures(c *busCase) []string {
 				if o.E >= o.S {
 					ok = append(ok, rng{o.M, o.S, o.E})
 				}
+			}
+		case "read24":
+			if o.Obs == -1 {
+				f["read24-fails"] = true
+			} else {
+				f["read24"] = true
+			}
+			if o.A&0xffff >= 0xfffe {
+				f["read24-wraps-in-bank"] = true
 			}
 		case "read", "write":
 			if o.Obs == -1 {
@@ -450,7 +461,13 @@ func (g *busGen) attach(id int, s, e uint32) {
 		g.rngs = append(g.rngs, [3]uint32{uint32(id), s, e})
 	}
 }
-func (g *busGen) read(a uint32) { g.c.Ops = append(g.c.Ops, busOp{Op: "read", A: a}) }
+func (g *busGen) read(a uint32) {
+	g.c.Ops = append(g.c.Ops, busOp{Op: "read", A: a})
+	// every third probe also goes through EaRead24_wrap (in-range addresses only: the method takes bank, offset)
+	if a < 0x1000000 && g.r.n(3) == 0 {
+		g.c.Ops = append(g.c.Ops, busOp{Op: "read24", A: a})
+	}
+}
 func (g *busGen) write(a uint32) {
 	g.c.Ops = append(g.c.Ops, busOp{Op: "write", A: a, V: g.r.n(256)})
 }
